@@ -361,7 +361,7 @@ theorem exec_pairs (k : Kind) (n : Net) (slot clock : Nat) {s : HState} (h : Goo
     constructor
     · apply pairs_nodup h.1
       intro a b _ _ ha hb hab
-      simp only [Bool.and_eq_true, beq_iff_eq, decide_eq_true_eq] at ha hb
+      simp only [Bool.and_eq_true, beq_iff_eq] at ha hb
       simp only [Function.comp, entryDuty, Prod.mk.injEq] at hab
       exact sameKey_iff.mpr ⟨by omega, hab.1, hab.2⟩
     · intro p hp
@@ -374,7 +374,7 @@ theorem exec_pairs (k : Kind) (n : Net) (slot clock : Nat) {s : HState} (h : Goo
     constructor
     · apply pairs_nodup h.1
       intro a b _ _ ha hb hab
-      simp only [Bool.and_eq_true, beq_iff_eq, decide_eq_true_eq] at ha hb
+      simp only [Bool.and_eq_true, beq_iff_eq] at ha hb
       simp only [Function.comp, entryDuty, Prod.mk.injEq] at hab
       exact sameKey_iff.mpr ⟨by omega, hab.1, hab.2⟩
     · intro p hp
@@ -387,7 +387,7 @@ theorem exec_pairs (k : Kind) (n : Net) (slot clock : Nat) {s : HState} (h : Goo
     constructor
     · apply pairs_nodup h.1
       intro a b ha' hb' ha hb hab
-      simp only [Bool.and_eq_true, beq_iff_eq, decide_eq_true_eq] at ha hb
+      simp only [Bool.and_eq_true, beq_iff_eq] at ha hb
       simp only [Function.comp, Prod.mk.injEq] at hab
       have := h.2 rfl a ha'
       have := h.2 rfl b hb'
